@@ -69,7 +69,18 @@ def suite(crates):
     else:
         flt = " | ".join(f"package({c})" for c in sorted(pk))
     # only build what is going to be run (`--workspace` would build every test binary)
-    scope = "--workspace" if "--full" in sys.argv else " ".join(f"-p {c}" for c in sorted(pk))
+    def spec(name):
+        # two versions of s2n-quic-core are in the lock file (one via quiche): name the local one
+        for root, dirs, files in os.walk(WT):
+            dirs[:] = [d for d in dirs if d not in ("target", ".git", "out")]
+            if "Cargo.toml" in files:
+                t = open(os.path.join(root, "Cargo.toml")).read()
+                m = re.search(r'^name\s*=\s*"([^"]+)"', t, re.M)
+                v = re.search(r'^version\s*=\s*"([^"]+)"', t, re.M)
+                if m and m.group(1) == name and v:
+                    return f"{name}@{v.group(1)}"
+        return name
+    scope = "--workspace" if "--full" in sys.argv else " ".join(f"-p {spec(c)}" for c in sorted(pk))
     rc, out = sh(f"cargo nextest run {scope} --no-fail-fast --tool-config-file pb:/w/lib/nextest.toml "
                  f"--profile pb --test-threads 8 --offline -E '{flt}' 2>&1 | tail -40", cwd=WT)
     m = re.search(r"(\d+) tests run: (\d+) passed(?: \((\d+) \w+\))?(?:, (\d+) failed)?", out)
